@@ -1061,14 +1061,15 @@ def _exit_guards(f):
     ps = set(f.params()[1:])
     for s in G.body_wo_doc(f):
         if isinstance(s, ast.If) and G.exits(s.body) and not s.orelse:
-            names = {y.id for y in ast.walk(s.test) if isinstance(y, ast.Name)}
+            test = G.expand(f, s.test)
+            names = {y.id for y in ast.walk(test) if isinstance(y, ast.Name)}
             if names & ps and 'self' not in names:
                 last = s.body[-1]
                 if isinstance(last, ast.Raise):
                     act = 'raise ' + (ast.unparse(last.exc.func if isinstance(last.exc, ast.Call) else last.exc) if last.exc is not None else '')
                 else:
                     act = 'return ' + (ast.unparse(last.value) if getattr(last, 'value', None) is not None else 'None')
-                t = _re.sub(r'\((\w+) := [^()]*(\([^()]*\))?[^()]*\)', r'\1', ast.unparse(s.test))
+                t = _re.sub(r'\((\w+) := [^()]*(\([^()]*\))?[^()]*\)', r'\1', ast.unparse(test))
                 out.add((t, act))
     return out
 
